@@ -60,3 +60,12 @@ Definition wit_width : option (solver CycS) :=
 (* reference override X on qubit 0, empty ansatz of width 1: energy_estimation sees X|0>, operator_expectation |0> *)
 Definition wit_ref : option (solver CycS) :=
   mk_solver true ([zX 0], 1%nat) ([zRY 0 0], 1%nat) None [([(0%N, PZ)], coef 1 0)] [] (coef 1 0).
+
+(* the same two solvers written out in the reference semantics (equal to the interpreted ones: VqeRunProofs.v) *)
+Definition gRY (k : Z) (q : N) : gate CycS := Gate (B1 (GRY (k : A CycS)) q) [].
+Definition gX (q : N) : gate CycS := Gate (B1 GX q) [].
+Definition wit_width_d : pcirc CycS := PCirc [gRY 4 0] 2.
+Definition wit_width_v : solver CycS :=
+  Solver false (PCirc [] 0) (PCirc [gRY 4 0] 1) None [([(0%N, PZ)], coef 1 0)] [wit_width_d] (coef 2 0).
+Definition wit_ref_v : solver CycS :=
+  Solver true (PCirc [gX 0] 1) (PCirc [gRY 0 0] 1) None [([(0%N, PZ)], coef 1 0)] [] (coef 1 0).
